@@ -30,4 +30,9 @@ BasesConfusable == {Tr(<<0, 1, 1, 3, 0, 5, 6, 6, 8>>, <<"g", "p1", "g", "p2", "g
                     Tr(<<0, 1, 2, 2, 4, 1, 6, 7, 7, 9>>, <<"g", "g", "p1", "g", "p2", "g", "g", "p1", "g", "p2">>),
                     Tr(<<0, 1, 1, 3, 0, 5, 5, 7, 8>>, <<"g", "p1", "g", "v", "g", "p1", "g", "g", "v">>)}
 KindsPlain == {"p1", "p2", "ext"}
+\* the group rules of Delay / Duration with a SECOND tag of the same name and another value
+KindsTL == {"p1", "def", "on", "dur", "del", "del2", "dur2"}
+BasesTL == {Tr(<<0, 1, 1, 3>>, <<"g", "dur", "g", "p1">>), Tr(<<0, 1, 1, 1, 4>>, <<"g", "del", "dur", "g", "p1">>),
+            Tr(<<0, 1, 1, 1>>, <<"g", "del", "on", "def">>), Tr(<<0, 1, 1, 3>>, <<"g", "del", "g", "p1">>),
+            Tr(<<0, 1, 1, 1, 4>>, <<"g", "del2", "dur2", "g", "p1">>)}
 ====
